@@ -371,7 +371,7 @@ def run(tier):
     rep, pf, exe, blog, lines, res, traces, model, herr, mism, n_coq, coq_bad = pipeline(PROP, tier, 0, THEOREMS)
     known = {e['id']: e for e in lib.known_findings(PROP)}
 
-    mon = [(i, m) for i, r in enumerate(res) for m in r.get('mon', [])]
+    mon = [(i, m) for i, r in enumerate(res) for m in r.get('mon', []) if m[0] != 'L2']   # L2 belongs to C16
     mon += [(i, ['RUNAWAY', r['runaway']]) for i, r in enumerate(res) if r.get('runaway')]
     seen_kinds = set()
     for i, m in mon:
